@@ -1,7 +1,7 @@
 (* C08 — the soft limit never waits for space, never deadlocks, propagates callback errors.
    PARTIAL in the same sense as C03 (protocol level). *)
 From Coq Require Import List Arith ZArith.
-From LK Require Import AList Model Inv StepInv PropLemmas.
+From LK Require Import AList Model Inv StepInv PropLemmas Drain.
 Import ListNotations.
 
 (* If nothing is evictable (e.g. every entry is locked) the call proceeds to the look-up in the same
@@ -46,3 +46,12 @@ Example C08_witness :
      LStart 1 (CLock ShBlocking 2 (Some 1)); LResume 1 [1]]
   = RunOk s [ONothing; OGuard 0 1 None; OVal None; ONothing; OGuard 1 2 None].
 Proof. eexists. vm_compute. reflexivity. Qed.
+(* Several threads locking at the limit at once all complete: from EVERY reachable state -- any number of
+   soft-limited calls before, inside or between eviction rounds, ordinary lockers queued behind the guards the
+   callbacks hold -- a run exists to the state of rest in which no new call is started and no pending call is
+   cancelled: callbacks return, the calls in flight take their steps, guards are dropped (Drain.v).  No state
+   can therefore be a deadlock among soft-limited and ordinary lockers. *)
+Theorem C08_no_deadlock_at_the_limit : forall c s,
+  reachable c s -> exists ls s', dsteps c s ls s' /\ s_ops s' = [] /\ s_guards s' = [].
+Proof. exact drain. Qed.
+
